@@ -10,8 +10,9 @@ from ..tlaparse import to_json
 INVS = ['InstalledWhenStarted', 'NoTraceUntouched', 'RestoredExactly', 'ShutdownCompletes', 'QuietAfter']
 
 
-def mc_cfg(ur=False, ab=False, ka=False, invs=INVS, calls=4, props=('StoppedAfterShutdown',)):
-    return dict(constants=dict(NPlugins=2, MaxCalls=calls, UnconditionalRestore=ur, AbortOnFailure=ab, KeepsActing=ka),
+def mc_cfg(ur=False, ab=False, ka=False, so=False, invs=INVS, calls=4, props=('StoppedAfterShutdown',)):
+    return dict(constants=dict(NPlugins=2, MaxCalls=calls, UnconditionalRestore=ur, AbortOnFailure=ab, KeepsActing=ka,
+                               SaveOnce=so),
                 invariants=invs, properties=list(props), deadlock=False)
 
 
@@ -34,6 +35,8 @@ def api_calls(walk):
             calls.append(('host_event', None, st))
         elif a == 'AppSetsHooks':
             calls.append(('app_sets_hooks', None, st))
+        elif a == 'AppChangesHooks':
+            calls.append(('app_changes_hooks', (str(st['appSys']), str(st['appThr'])), st))
     return calls
 
 
@@ -61,13 +64,20 @@ def replay_walk(c, walk, wd, exc):
                             go.wait(20)
                             before = sum(len(p.calls) for p in sysm.plugins), len(sysm.sent)
                             acted['res'] = sysm.mod.beat(1)
-                            time.sleep(0.05)
-                            acted['delta'] = (sum(len(p.calls) for p in sysm.plugins) - before[0],
-                                              len(sysm.sent) - before[1])
+                            t0 = time.time()     # give a (wrong) background delivery time to show up, also on a loaded machine
+                            while time.time() - t0 < 0.3:
+                                acted['delta'] = (sum(len(p.calls) for p in sysm.plugins) - before[0],
+                                                  len(sysm.sent) - before[1])
+                                if acted['delta'] != (0, 0):
+                                    break
+                                time.sleep(0.01)
                         extra_thread = threading.Thread(target=worker)
                         extra_thread.start()
                 elif name == 'app_sets_hooks':
                     sysm.app_sets_hooks()
+                elif name == 'app_changes_hooks':
+                    sysm.app_changes_hooks(*failing)
+                    steps[-1][1] = list(failing)
                 elif name == 'shutdown':
                     err = sysm.shutdown(failing)
                     if err:
@@ -128,7 +138,7 @@ def run(c):
                      'GRPCService.start is replaced by a fake channel']
     r = c.mc('Lifecycle', mc_cfg(), label='2 plugins, 4 calls', dump=True,
              must_cover=['Start', 'ShutdownBegin', 'ShutdownStep', 'ShutdownMark'])
-    for kw, inv in ((dict(ur=True), 'NoTraceUntouched'), (dict(ka=True), 'QuietAfter')):
+    for kw, inv in ((dict(ur=True), 'NoTraceUntouched'), (dict(ka=True), 'QuietAfter'), (dict(so=True), 'RestoredExactly')):
         c.mc_expect_violation('Lifecycle', mc_cfg(invs=[inv], props=(), **kw), 'deviation %s' % list(kw)[0], what=inv)
     c.mc_expect_violation('Lifecycle', mc_cfg(invs=[], ab=True), 'deviation AbortOnFailure',
                           what='StoppedAfterShutdown')
@@ -145,6 +155,15 @@ def run(c):
             # prefer walks whose shutdown has the most failing steps
             ws.sort(key=lambda w: -max([len(x[2]['failing']) for x in w]))
             curated += ws[:2]
+    # a second life of the agent after the application replaced / removed its hooks in between
+    short = ['ShutdownBegin'] + ['ShutdownStep'] * 5 + ['ShutdownMark']
+    ws = core.walks_matching(r.graph, ['Start'] + short + ['AppChangesHooks', 'Start'] + short,
+                             init_filter=lambda st: not st['noTrace'] and st['preSys'] != 'None', limit=400)
+    picked = {}
+    for w in ws:
+        key = (str(w[0][2]['preSys']), str(w[0][2]['preThr']), str(w[-1][2]['appSys']), str(w[-1][2]['appThr']))
+        picked.setdefault(key, w)
+    curated += list(picked.values())[:6]
     import itertools
     for walk in itertools.chain(curated, core.random_walks(r.graph, rng, 40 if quick else 800, max_len=40,
                                                            cover_edges=not quick)):
